@@ -240,7 +240,7 @@ def PROOFS():
     return [("vf.contracts.categorical_c", categorical_c.FUNCTIONS),
             ("vf.contracts.contrasts_c", contrasts_c.FUNCTIONS),
             # helper terms are assembled from the term's components picked by name (create_extra_term): the first component of that name
-            ("vf.contracts.terms_c", ["formulae.terms.terms.Term.get_component"]),
+            ("vf.contracts.terms_c", ["formulae.terms.terms.Term.get_component", "formulae.terms.terms.Term.set_type"]),
             # the pair step of the simplification: can_absorb's guarantee is absorb's precondition; nothing of the shorter subterm is lost
             ("vf.contracts.lemmas_c", ["vf.proplemmas.c03.merge_step"]),
             # columns of an interaction are the pairwise products; the matrix is the terms' blocks side by side, one term per name
